@@ -48,6 +48,12 @@ def _config(draw):
         b = draw(build.rigid_body()) if draw(st.integers(0, 3)) else draw(build.point_mass())
         b["r"] = [3.0 * i + draw(gen.f(-0.3, 0.3)), draw(gen.f(-0.3, 0.3)), 1.0 + draw(gen.f(0, 0.5))]
         bodies.append(b)
+    if draw(st.integers(0, 7)) == 0:
+        # a micro-scale model in SI units: masses and inertias of order 1e-13
+        for b in bodies:
+            b["mass"] = b["mass"] * 1e-13
+            if "theta" in b:
+                b["theta"] = (np.array(b["theta"]) * 1e-13).tolist()
     rigid = [i for i, b in enumerate(bodies) if b["kind"] == "rigid"]
     spec = {"kind": "config", "bodies": bodies, "t0": draw(gen.f(0, 1)), "parts": []}
     parts = spec["parts"]
@@ -345,8 +351,9 @@ def check_config(spec, res):
                 continue
             err = float(np.max(np.abs(got - ref))) if got.size else 0.0
             sc = float(np.max(np.abs(ref))) if ref.size else 0.0
-            if err > 1e-12 * (1 + sc):
-                res.fail("equals_dense_reference", f"System.{name}", err, feats, f"err={err:.3e}")
+            # relative to the size of the reference's entries (a micro-scale model has a mass matrix of order 1e-13)
+            if err > 1e-12 * sc:
+                res.fail("equals_dense_reference", f"System.{name}", err, feats, f"err={err:.3e} max|ref|={sc:.3e}")
         # ---- re-assembly is idempotent -------------------------------------------------------
         lay0 = _layout(system)
         q00, u00 = system.q0.copy(), system.u0.copy()
@@ -486,7 +493,9 @@ def check_history(spec, res):
                     res.fail("duplicate_add_raises", site, None, feats, f"step {step}")
                     return
             elif o in ("remove", "pop", "readd"):
-                cands = [c for c in model if not dependants(c)]
+                # a contribution that others refer to may be taken out only if it is put back at once (it then comes
+                # after its dependants in the list)
+                cands = [c for c in model if (o == "readd" or not dependants(c))]
                 if not cands:
                     continue
                 c = cands[op["i"] % len(cands)]
@@ -541,10 +550,14 @@ def check_history(spec, res):
                     res.fail("assembled_dimensions_match_model", site, None, feats,
                              f"step {step}: {(system.nq, system.nu, system.nla_g)} vs {(nq, nu, nla_g)}")
                     return
-                # evaluations work on the assembled system
+                # evaluations work on the assembled system; every joint was defined in the current configuration
                 system.h(system.t0, system.q0, system.u0)
-                system.g(system.t0, system.q0)
+                gval = system.g(system.t0, system.q0)
                 system.M(system.t0, system.q0)
+                res.ok()
+                if gval.size and float(np.max(np.abs(gval))) > 1e-10:
+                    res.fail("joints_satisfied_after_assembly", site, float(np.max(np.abs(gval))), feats, f"step {step}")
+                    return
         if not invariant(step, o):
             return
     res.nontrivial = removed_then
